@@ -51,6 +51,12 @@ def type_shape_programs():
     out.append("enum W { Val(u8) }\npub fn main(x: u8) -> W { W::Val(x) }")
     out.append("enum W { Val(u8) }\npub fn main(w: W) -> u8 { match w { W::Val(v) => v } }")
     out.append("enum U { Only }\npub fn main(u: U, x: u8) -> [U; 2] { [u, U::Only] }")
+    # a single array parameter is one party per element, whatever form its size takes (99088d3)
+    out.append("pub fn main(arr: [u8; const { 2usize + 1usize }]) -> u8 { arr[0usize] }")
+    out.append("pub fn main(arr: [(u8, bool); const { 4usize - 2usize }]) -> bool { arr[1usize].1 }")
+    out.append("pub fn main(arr: [[u8; 2]; 3]) -> u8 { arr[2usize][1usize] }")
+    out.append("pub fn main(arr: [u8; 3]) -> u8 { arr[0usize] }")
+    out.append("pub fn main(arr: [bool; 1]) -> bool { arr[0usize] }")
     return out
 
 
@@ -150,6 +156,9 @@ def run(ck):
             bad = f"input bits {ig} do not match the parameter sizes {mp}"
         elif len(mp) != 1 and ig != mp:
             bad = f"input parties {ig} != parameter sizes {mp}"
+        elif len(mp) == 1 and re.search(r"pub fn main\(\w+: \[", rec["src"]) and not (
+                len(set(ig)) <= 1 and len(ig) >= 1 and (len(ig) > 1 or re.search(r"pub fn main\(\w+: \[.*; (?:1|const \{ 1usize \})\]\)", rec["src"]) or sum(mp) == 0)):
+            bad = f"a single array parameter is not split into one party per element: input parties {ig}"
         else:
             for cfg, results in rec["runs"].items():
                 if any(x == "crash" for x in results):
